@@ -1,6 +1,7 @@
 import CLModel.Proofs.Primary
 import CLModel.Proofs.NeComplete
 import CLModel.Proofs.Complete
+import CLModel.Proofs.ZnRefine
 import CLModel.Proofs.FourSq
 import Driver.ProveOps
 import CLModel.Props.C03
@@ -671,5 +672,128 @@ example : ∃ prf,
     · intro k hk; rw [iterKeys_eq] at hk; simp at hk; rcases hk with rfl | rfl | rfl | rfl | rfl <;> decide
   · intro a ha; simp [keys] at ha
 
+
+section ZnRefinement
+open CL.Zn
+
+/-! ## The executable group refines the proof group (`Zn_refines_units`)
+
+The completeness theorems above are stated over `addOps` (any additive commutative group).  What
+the driver `cldrv` — and therefore the correspondence check — runs is `Zn.znOps N`: Lean integers
+modulo the key's `n`, square-and-multiply and the extended Euclidean algorithm
+(`Model/Zn.lean`).  The theorems below close that gap for the primary (RSA-side) equations:
+`Zn.znOps N` is related, operation by operation, to `addOps` over `Additive (ZMod N)ˣ`, the
+relation lifts through every function that computes `T`, `T̂` and the predicate `τ̂` values, and
+so the *integers* the executable verifier recomputes are the integers the executable prover
+committed to. -/
+
+/-- **`Zn_refines_units`**: for every modulus `N > 1` the five operations, the byte encoding
+and the equality test of the executable group correspond to those of the additive proof group
+`Additive (ZMod N)ˣ` on reduced representatives of units. -/
+theorem zn_refines_units (N : ℕ) (hN : 1 < N) :
+    OpsRel (Zn.Rel N) (Zn.znOps N) (addOps (Zn.encU N)) := Zn.znOps_refines hN
+
+/-- the executable modular exponentiation and inverse are the mathematical ones: `b^e mod m`
+for every `b e m`; `modInv a n` is defined exactly on the units of `ℤ/n` (`n > 1`), returns the
+reduced inverse there and `err` (never `panic`, never a wrong value) elsewhere. -/
+theorem zn_arithmetic_exact :
+    (∀ b e m : ℕ, Zn.modPowNat b e m = b ^ e % m) ∧
+    (∀ a n x : ℤ, Zn.modInv a n = .ok x → 1 < n ∧ 0 ≤ x ∧ x < n ∧ (a * x) % n = 1) ∧
+    (∀ a n : ℤ, 1 < n → Int.gcd a n = 1 → ∃ x, Zn.modInv a n = .ok x) ∧
+    (∀ a n : ℤ, Int.gcd a n ≠ 1 → Zn.modInv a n = .err) :=
+  ⟨Zn.modPowNat_eq, fun _ _ _ h => Zn.modInv_ok h, fun _ _ hn hc => Zn.modInv_complete hn hc,
+   fun _ _ hc => Zn.modInv_err_of_not_coprime hc⟩
+
+/-- every reduced integer coprime to `N` represents a unit: the relation's domain is exactly the
+group elements an honest key and credential consist of -/
+theorem rel_exists (N : ℕ) (_hN : 1 < N) (x : ℤ) (h0 : 0 ≤ x) (hn : x < N)
+    (hc : Int.gcd x N = 1) : ∃ u : Zn.U N, Zn.Rel N x u := by
+  have hcop : Nat.Coprime x.toNat N := by
+    have hx : x.natAbs = x.toNat := by omega
+    rw [Int.gcd, Int.natAbs_natCast, hx] at hc
+    exact hc
+  refine ⟨Additive.ofMul (ZMod.unitOfCoprime x.toNat hcop), h0, hn, ?_⟩
+  simp only [Zn.uval, toMul_ofMul, ZMod.coe_unitOfCoprime]
+  rw [← Int.cast_natCast, Int.toNat_of_nonneg h0]
+
+/-- **the executable verifier recomputes the executable prover's `T`, as integers**: the
+equality sub-protocol run entirely in `Zn.znOps N` (what `cldrv` executes) is complete.  The key
+and the signature are integers that represent units (`PKRel`, `SigRel` against some key and
+signature over `Additive (ZMod N)ˣ`); the CL signature equation is stated on those units. -/
+theorem eq_complete_executable (N : ℕ) (hN : 1 < N)
+    (pk : PubKey ℤ) (sig : Signature ℤ) (pk' : PubKey (Zn.U N)) (sig' : Signature (Zn.U N))
+    (hpk : PKRel (Zn.Rel N) pk pk') (hs : SigRel (Zn.Rel N) sig sig')
+    (un rev : List String) (rf : String → Zn.U N) (val : String → ℤ) (vals : Values)
+    (common : List (String × ℤ)) (m2Tilde c : ℤ) (tp : EqTape)
+    (hr : Maps pk'.r (un ++ rev) rf) (hv : Maps vals (un ++ rev) val)
+    (hsig : SigValid pk' sig' rf val (un ++ rev))
+    (hrange : 0 ≤ c * (sig.e - 2 ^ Gen.largeEStartValueExp) + tp.eTilde ∧
+              c * (sig.e - 2 ^ Gen.largeEStartValueExp) + tp.eTilde < 2 ^ (Gen.LARGE_ETILDE + 1)) :
+    ∃ init prf, initEqProof (Zn.znOps N) common pk sig un m2Tilde tp = .ok init ∧
+      finalizeEqProof init c un rev vals = .ok prf ∧
+      verifyEquality (Zn.znOps N) pk prf c un = .ok init.t := by
+  have : NeZero N := ⟨by omega⟩
+  have ho := Zn.znOps_refines hN
+  rw [hs.e] at hrange
+  obtain ⟨init', prf', h1, h2, h3, _⟩ := eq_complete (Zn.encU N) pk' sig' un rev rf val vals common
+    m2Tilde c tp hr hv hsig hrange
+  -- the prover's first message
+  have r1 := initEqProof_rel ho common hpk hs un m2Tilde tp
+  rw [h1] at r1
+  cases hi : initEqProof (Zn.znOps N) common pk sig un m2Tilde tp with
+  | ok init =>
+    rw [hi] at r1
+    have hinit : EqInitRel (Zn.Rel N) init init' := r1
+    -- the responses
+    have r2 := finalizeEqProof_rel hinit c un rev vals
+    rw [h2] at r2
+    cases hf : finalizeEqProof init c un rev vals with
+    | ok prf =>
+      rw [hf] at r2
+      have hprf : EqRel (Zn.Rel N) prf prf' := r2
+      -- the verifier
+      have r3 := verifyEquality_rel ho hpk hprf c un
+      rw [h3] at r3
+      cases hve : verifyEquality (Zn.znOps N) pk prf c un with
+      | ok t =>
+        rw [hve] at r3
+        have ht : Zn.Rel N t init'.t := r3
+        exact ⟨init, prf, rfl, hf, by rw [hve, Zn.rel_unique ht hinit.t]⟩
+      | err => rw [hve] at r3; exact absurd r3 (by simp [ORel])
+      | panic => rw [hve] at r3; exact absurd r3 (by simp [ORel])
+    | err => rw [hf] at r2; exact absurd r2 (by simp [ORel])
+    | panic => rw [hf] at r2; exact absurd r2 (by simp [ORel])
+  | err => rw [hi] at r1; exact absurd r1 (by simp [ORel])
+  | panic => rw [hi] at r1; exact absurd r1 (by simp [ORel])
+
+/-- **the transcript bytes agree**: on related keys and proofs the executable verifier's whole
+primary computation (`[T̂] ++` predicate `τ̂` values, the bytes that enter the Fiat–Shamir hash)
+equals the proof-group verifier's, outcome tag included — for every proof, honest or not, whose
+group elements are units. -/
+theorem executable_verifier_transcript_refines (N : ℕ) (hN : 1 < N) (m : OvfMode)
+    (pk : PubKey ℤ) (pk' : PubKey (Zn.U N)) (hpk : PKRel (Zn.Rel N) pk pk')
+    (eq : EqProof ℤ) (eq' : EqProof (Zn.U N)) (heq : EqRel (Zn.Rel N) eq eq')
+    (ne : List (NeProof ℤ)) (ne' : List (NeProof (Zn.U N)))
+    (hne : List.Forall₂ (NeRel (Zn.Rel N)) ne ne') (c : ℤ) (unrev : List String) :
+    (verifyPrimaryProof (Zn.znOps N) m pk eq ne c unrev).map (List.map Zn.encInt) =
+      (verifyPrimaryProof (addOps (Zn.encU N)) m pk' eq' ne' c unrev).map
+        (List.map (Zn.encU N)) :=
+  verifyPrimaryProof_bytes (Zn.znOps_refines hN) m hpk heq hne c unrev
+
+/-- non-vacuity: modulo 35 the integers 2, 3, 4 represent units, so a key with `S = 2`, `Z = 3`,
+`Rctxt = 4`, `R_a = 9` meets `PKRel` against the key of their units; and the executable group
+computes 2⁻¹ = 18, 2^(−3) = 22 there -/
+example : (∃ u : Zn.U 35, Zn.Rel 35 2 u) ∧ (∃ u : Zn.U 35, Zn.Rel 35 9 u) ∧
+    (Zn.znOps 35).inv 2 = .ok 18 ∧ (Zn.znOps 35).pow 2 (-3) = .ok 22 := by
+  have hinv : Zn.modInv 2 35 = .ok 18 := by
+    obtain ⟨x, hx⟩ := Zn.modInv_complete (a := 2) (n := 35) (by norm_num) (by decide)
+    obtain ⟨_, h0, hn, hm⟩ := Zn.modInv_ok hx
+    have : x = 18 := by omega
+    rw [hx, this]
+  refine ⟨rel_exists 35 (by norm_num) 2 (by norm_num) (by norm_num) (by decide),
+    rel_exists 35 (by norm_num) 9 (by norm_num) (by norm_num) (by decide), hinv, ?_⟩
+  simp [Zn.znOps, hinv, Zn.modPowNat_eq]
+
+end ZnRefinement
 
 end CL.C01
